@@ -76,10 +76,15 @@ func NewSpecValidator(schema *spec.Schema, formats strfmt.Registry) *SpecValidat
 		o(schemaOptions)
 	}
 
+	// the package-level defaults may be changed concurrently by SetContinueOnErrors
+	defaultOptsMutex.Lock()
+	opts := defaultOpts
+	defaultOptsMutex.Unlock()
+
 	return &SpecValidator{
 		schema:        schema,
 		KnownFormats:  formats,
-		Options:       defaultOpts,
+		Options:       opts,
 		schemaOptions: schemaOptions,
 	}
 }
